@@ -497,3 +497,30 @@ def check_C11(tier):
                                "and points one ulp / 1e-9 outside the bounds"})
     v.assumptions.append("numeric accuracy off the grid (round trip < 1e-9 of the box width) is a guard evaluated by the driver, not a TLC decision")
     return v
+
+
+def check_C20(tier):
+    from . import comp_options
+    v = Verdict("C20", tier, "model_checking")
+    st, cases = comp_options.run(v, tier)
+    v.coverage.update({"states": st, "transitions": cases, "traces_validated_against_impl": v.coverage.get("options_schedules_replayed", 0),
+                       "evaluations": cases, "distinct_nontrivial": v.coverage.get("options_schedules_replayed", 2),
+                       "samples": v.coverage.get("options_samples", []), "exhaustive": tier == "thorough",
+                       "rule": "all orders of constructing/running three instances (D=2,3,1; different override sets; noisy/deterministic) "
+                               "enumerated by TLC from Options.tla and replayed in one process; every option name of the two ini files "
+                               "overridden with changed and falsy sentinel values; defaults recomputed independently from the ini text"})
+    return v
+
+
+def check_C07(tier):
+    from . import comp_repro
+    v = Verdict("C07", tier, "model_checking")
+    st, cases = comp_repro.run(v, tier)
+    v.coverage.update({"states": st, "transitions": cases, "traces_validated_against_impl": cases,
+                       "evaluations": cases, "distinct_nontrivial": v.coverage.get("repro_schedules_replayed", 2),
+                       "samples": v.coverage.get("repro_samples", []), "exhaustive": tier == "thorough",
+                       "rule": "every schedule (<= 6 steps) of constructing/running the instance under test among foreign RNG draws, "
+                               "foreign constructions (seeded / unseeded, other D and options) and foreign runs, enumerated by TLC from "
+                               "Repro.tla; each replayed in a fresh process for 4 problem kinds (deterministic/noisy x x0 given/omitted) and "
+                               "compared bit for bit with the two-step reference"})
+    return v
